@@ -215,12 +215,16 @@ def replay_kernel(w):
         'linear_interp_with_linear_extrap': vi.linear_interp_with_linear_extrap,
         '_linear_interp_with_safe_extrap(n=1)': lambda a, b, c: vi._linear_interp_with_safe_extrap(a, b, c, 1),
         '_linear_interp_with_safe_extrap(n=2)': lambda a, b, c: vi._linear_interp_with_safe_extrap(a, b, c, 2)}[k]
-  fp = 2.0 + 3.0 * xp            # affine data
-  got = float(fn(x, jnp.asarray(xp), jnp.asarray(fp)))
   ws = spec_weights(x, xp, w['mode'], w.get('ncells', 1))
-  want = float(ws @ fp) if not np.isnan(ws).any() else float('nan')
-  bad = (np.isnan(got) != np.isnan(want)) or (not np.isnan(got) and abs(got - want) > 1e-9 * max(1, abs(want)))
-  return bad, f'{k}(x={x}, xp={list(xp)}, fp=2+3*xp) = {got}; documented behaviour gives {want}'
+  msgs = []
+  bad = False
+  for label, fp in (('2+3*xp (affine)', 2.0 + 3.0 * xp), ('xp**2', xp ** 2), ('(-1)**i', (-1.0) ** np.arange(len(xp)))):
+    got = float(fn(x, jnp.asarray(xp), jnp.asarray(fp)))
+    want = float(ws @ fp) if not np.isnan(ws).any() else float('nan')
+    b = (np.isnan(got) != np.isnan(want)) or (not np.isnan(got) and abs(got - want) > 1e-9 * max(1, abs(want)))
+    bad |= bool(b)
+    msgs.append(f'fp={label}: got {got}, documented behaviour gives {want}')
+  return bad, f'{k}(x={x}, xp={list(xp)}): ' + '; '.join(msgs)
 
 
 def clauses(tier, seed):
